@@ -54,8 +54,9 @@ LOOP_INV = [x for x in SO_REQ if x[0] not in dict(WF_STATIC) and x[0] != "C02.al
 SO.ensures = SO.ensures + [("wf.levels_nonempty_post", "implies(result is not None, forall(l, 0, stacks_top[0] + 1, forall(d, 0, D, shr_domains_stack[l, d, MIN] <= shr_domains_stack[l, d, MAX])))"),
                            ("wf.records_post", WF_DYN[3][1])]
 SO.result = "opt:i64[V]"
-REG.contracts[BS + "solve_one#bc"].ensures = REG.contracts[BS + "solve_one#bc"].ensures + SO.ensures[-2:]
-REG.contracts[BS + "solve_one#bc"].result = "opt:i64[V]"
+for _v in ("#bc", "#sem"):
+    REG.contracts[BS + "solve_one" + _v].ensures = REG.contracts[BS + "solve_one" + _v].ensures + SO.ensures[-2:]
+    REG.contracts[BS + "solve_one" + _v].result = "opt:i64[V]"
 
 
 def h_put(ex, st, node, args):
@@ -154,3 +155,24 @@ for variant, updater, bound, other, better, measure in (
             ensures=([("C03.result_in_domain", f"implies(result is not None, {OBJ_LO} <= result[variable_idx] and result[variable_idx] <= {OBJ_HI})"),
                       ("C03.problem", f"same({ROOT})")] if not is_q else []) + extra_ens,
             tags={"C03": ["C03"], "C11": ["C11", "C03"], "wf": ["C16"], "C01": ["C03"], "C02": ["C03"], "C17": ["C03"]}, arities=[])
+
+# ------------------------------------------------------------------ optimality (C03) through the semantic search contract solve_one#sem
+IN_ROOT = f"forall(d, 0, D, {ROOT}[d, 0] <= sigma[d] and sigma[d] <= {ROOT}[d, 1])"
+SIG_OBJ = f"(sigma[{OBJ_D}] + self.problem.dom_offsets_arr[variable_idx])"
+for variant, updater, bound, other, cmp in (("min", "nucs/solvers/solver.py::decrease_max", "MAX", "MIN", ">="), ("max", "nucs/solvers/solver.py::increase_min", "MIN", "MAX", "<=")):
+    base = REG.contracts[BS + "BacktrackSolver.optimize#" + variant]
+    lc = dict(base.loops[1])
+    better = "<" if variant == "min" else ">"
+    lc["invariant"] = list(lc["invariant"]) + [
+        # every solution of the problem that is strictly better than the incumbent (any solution, if there is none yet) is in the current root box
+        ("C03.better_in_root", f"implies(sol() and {IN_ROOT} and (best_solution is None or {SIG_OBJ} {better} best_solution[variable_idx]), in_box({S0}, 0))"),
+    ]
+    contract(BS + "BacktrackSolver.optimize", variant=variant + "sem", types=base.types, result="none", props=["C03"],
+        requires=base.requires, ghost={"sigma": "int[D]"},
+        calls={"update_domain_fct": updater, "solve_one": BS + "solve_one#sem"}, call_ghosts={"solve_one": {"sigma": "sigma", "lv0": "0"}},
+        loops={1: lc},
+        ensures=[
+            ("C03.none_iff_infeasible", f"implies(result is None, not (sol() and {IN_ROOT}))"),
+            ("C03.optimal", f"implies(result is not None and sol() and {IN_ROOT}, {SIG_OBJ} {cmp} result[variable_idx])"),
+        ],
+        tags={"C03": ["C03"], "wf": ["C16"], "C01": ["C03"], "C02": ["C03"], "C17": ["C03"]}, arities=[], timeout_ms=200000)
